@@ -35,6 +35,8 @@ def run(rep, tier):
     obs.r_obs_fields(rep, f)
     rep.rule("R-TEVAL-PASSTHROUGH", "solve_ivp hands Options::t_eval to the output handler unmodified (clones / reborrows only: no sort, reverse, filter or map)")
     obs.r_teval_passthrough(rep, f)
+    rep.rule("R-TEVAL-SHORTCUT", "returns of solve_ivp that bypass the output handler (zero-length span, empty state) report, when t_eval is given, a selection of t_eval itself (clone/iter/filter/copied/collect)")
+    obs.r_teval_shortcut(rep, f)
     rep.explanation = ("Structural, all paths: provenance of every (time, state) pair the default output handler reports in t_eval mode, "
                        "monotone cursor, sampling before a terminal return, terminal point last, independence from dense_output. "
                        "Not decided: which t_eval[i] fall inside [xold-tol, x+tol] (float comparisons on run-time data); interpolant accuracy (C07).")
